@@ -14,7 +14,7 @@ from hypothesis import strategies as st
 from vf import core, diff, sem
 from vf.core import Stats, Violation
 from vf.diff import Trivial
-from vf.gen import cbgen
+from vf.gen import cbgen, full
 
 ID = "C03"
 RULE = (
@@ -44,12 +44,12 @@ def cases(draw, switches):
     storage = d(st.sampled_from([32, 32, 80]))
     prog_lines = []  # list of statement lists
     init = []
-    num_vars = ["A", "B", "C", "X", "Y"]
-    str_vars = ["S", "T", "U", "NM"]
-    for v, x in zip(num_vars, d(st.permutations([2, 3, 5, 1.5, -4]))):
+    num_vars = ["A", "B", "C", "X", "Y", "K2"]  # one-letter, letter+digit and (strings) two-letter names
+    str_vars = ["S", "T", "U", "NM", "N1"]
+    for v, x in zip(num_vars, d(st.permutations([2, 3, 5, 1.5, -4, 9]))):
         init.append(["let", ["var", v], cbgen.lit_expr(x), False])
     maxlen = 20
-    for v, x in zip(str_vars, d(st.permutations(["AB", "HELLO", "", "B A"]))):
+    for v, x in zip(str_vars, d(st.permutations(["AB", "HELLO", "", "B A", "Q"]))):
         init.append(["let", ["svar", v], ["str", x], False])
     # ---------------------------------------------------------------- arrays
     arrays = []  # (name, kind, bounds, dimmed)
@@ -127,6 +127,10 @@ def cases(draw, switches):
             st_ = []
             for c in corners:
                 st_.append(["let", [tag, name, [N(x) for x in c]], elem_value(kind, c), False])
+            if kind == "sarr" and d(st.integers(0, 2)) == 0:
+                # the last assignment of the line leaves its string literal open (legal at the end of a line); blanks before the line end are content
+                st_[-1] = ["let", st_[-1][1], ["str", st_[-1][2][1] + d(st.sampled_from(["", " ", "X "]))], d(st.booleans()), "open"]
+                feats.add("open_string_literal_to_array_element")
             prog_lines.append(st_)
             # read corners plus one never-written element (initially 0 / "")
             mid = [min(1, b) for b in bounds]
@@ -152,7 +156,7 @@ def cases(draw, switches):
                 elif r < 6:
                     items.append(["q", d(st.sampled_from(["", "A", "A B", " X ", "HI, YOU", "a:b"]))])
                 elif r < 8:
-                    items.append(["u", d(st.sampled_from(["ABC", "A B", "X  ", "RED", "Z9 "]))])
+                    items.append(["u", d(st.sampled_from(["ABC", "A B", "X  ", "RED", "Z9 ", "DON'T", "'Q"]))])
                 elif r < 9:
                     items.append(["h", d(st.sampled_from(["F", "1F", "FF", "7FFF", "8000", "FFFF"]))])
                 else:
@@ -253,6 +257,10 @@ def cases(draw, switches):
             feats.add("string_function_of_string_function")
     for _ in range(d(st.integers(0, 2))):
         prog_lines.append([["let", ["var", d(st.sampled_from(["X", "Y"]))], ["fn", d(st.sampled_from(["LEN", "VAL"])), [g.string(1, plain=True)]], False]])
+    if d(st.integers(0, 3)) == 0:
+        first_ = [["let", ["var", "X"], N(1), False]] if d(st.booleans()) else []
+        prog_lines.append(first_ + [["let", ["svar", d(st.sampled_from(["U", "T", "N1"]))], ["str", d(st.sampled_from(["OPEN", "A B ", "", "x"]))], d(st.booleans()), "open"]])
+        feats.add("open_string_literal_to_scalar")
     init.append(["let", ["var", "I9"], N(2), False])
     # leave some variables to their Color BASIC defaults (0 / ""): the translation must pre-initialise them
     keep = d(st.lists(st.booleans(), min_size=len(init), max_size=len(init)))
@@ -303,8 +311,8 @@ def cases(draw, switches):
         prog.append([ln, [["data", items]]])
         ln += 10
     opts = {"default_str_storage": storage, "initialize_vars": d(st.booleans())}
-    return {"prog": prog, "options": opts, "str_limit": storage, "paren_unary": "paren_unary" in switches,
-            "_meta": {"features": sorted(feats), "excluded": {**dict(g.excluded), **excluded}}}
+    return full.add_layout(draw, {"prog": prog, "options": opts, "str_limit": storage, "paren_unary": "paren_unary" in switches,
+                                  "_meta": {"features": sorted(feats), "excluded": {**dict(g.excluded), **excluded}}}, switches, key="source_override")
 
 
 def check_case(case):
@@ -349,6 +357,8 @@ def campaign(seed, n, switches=frozenset()):
 
     def body(case):
         meta = case.pop("_meta")
+        if meta.get("drawn_layout"):
+            stats.classes["drawn_layout"] += 1
         case = dict(case)
         check_case(case)
         triv = case.get("_trivial")
